@@ -235,6 +235,7 @@ func checkC06(c *core.Ctx) {
 	lengthBeforePadding(c, r7)
 	currentFieldInConditions(c, c.Rule("R6.9", "T", "SerializeTo branches on the current value of a receiver field it also stores, not on a copy read before the store"))
 	conditionalLayoutAgreement(c, c.Rule("R6.10", "T", "a field read and written at a running offset is preceded by the same guarded advances on both sides"))
+	sizerMeasuresWhatWriterEmits(c, c.Rule("R6.11", "T", "the length of the slice a writer over *T returns depends only on inputs the sizer over *T depends on (= R7.10)"))
 	coArgumentAgreement(c, c.Rule("R6.8", "T", "sizing and writing passes over the same object pair each field with the same metadata accessor"))
 	r5 := c.Rule("R6.5", "T", "a list written element by element with PrependBytes is walked from its last element down")
 	listOrderUnderPrepend(c, r5)
